@@ -58,6 +58,7 @@ package activeauth
 //@   props C07 C14
 //@   requires dg15 != nil
 //@   ensures "evidence-records-challenge-and-response": result != nil ==> result.Evidence != nil && result.Evidence.Nonce === rndIfd && result.Evidence.Signature === intAuthRspBytes
+//@   ensures "evidence-records-the-dg15-key-algorithm": result != nil ==> result.Evidence.Algorithm === spkiAlgOid(dg15.SubjectPublicKeyInfoBytes)
 //@   ensures "success-iff-no-error": result != nil ==> (result.Success == (err == nil))
 //@   ensures "no-result-without-key": result == nil ==> err != nil
 //@   proves "rsa-key-of-dg15": result != nil && result.Success && pubKey != nil ==> pubKey.N != nil
@@ -115,4 +116,6 @@ package activeauth
 //@   requires doc != nil
 //@   ensures "verdict-only-from-signature-validation": result0 != nil && result0.Success ==> result1 == nil && evidence != nil && doc.Mf.Lds1.Dg15 != nil
 //@        && result0.Evidence != nil && result0.Evidence.Nonce === evidence.Nonce && result0.Evidence.Signature === evidence.Signature
+//@   ensures "recorded-algorithm-is-the-dg15-key-algorithm": result0 != nil && result0.Success ==> result0.Evidence.Algorithm === evidence.Algorithm
+//@   ensures "success-iff-no-error": result0 != nil ==> (result0.Success == (result1 == nil))
 //@   safety all
